@@ -59,8 +59,10 @@ let sort_names l = List.sort Stdlib.compare (List.map string_of_bytes l)
 let show_names l = String.concat "," (List.map String.escaped l)
 
 (* one server judgement: DIFF model vs implementation, PROP oracle on the implementation's verdict *)
+let last_uploader_report : report option ref = ref None
 let server_case c u cfg ~from_uploader ~what =
   let r = next_report c in
+  if from_uploader then last_uploader_report := Some r;
   let vtag = next c in
   let status = next_int c in
   let semver_ok = next_bool c in
@@ -71,14 +73,18 @@ let server_case c u cfg ~from_uploader ~what =
   let mstatus = int_of_n (server_status mv) in
   if mstatus <> status then diff (tag "status") ~model:(string_of_int mstatus) ~impl:(string_of_int status);
   if stored <> (status = 200) then diff (tag "stored") ~model:(string_of_bool (status = 200)) ~impl:(string_of_bool stored);
-  (match verdict_of_name vtag with
+  (* the oracle judges the outermost entry point: the upload handler's HTTP status *)
+  (match (if status = 200 then Some VOk
+          else match verdict_of_name vtag with
+            | Some VOk | None -> Some VUnknownBuild   (* refused by the handler although validate alone accepts *)
+            | v -> v) with
    | None -> ()
    | Some iv ->
      let week_ok = (match parse_date r.r_week with Some _ -> true | None -> false) in
      List.iter (fun cl ->
          prop (aclass_name cl)
-           (Printf.sprintf "%s report week=%s config=%s x=%s programs=%d: server says %s"
-              what (esc r.r_week) (esc r.r_config) (tok_of_n r.r_x) (List.length r.r_programs) vtag))
+           (Printf.sprintf "%s report week=%s config=%s x=%s programs=%d: handler answers %d (validate alone: %s)"
+              what (esc r.r_week) (esc r.r_config) (tok_of_n r.r_x) (List.length r.r_programs) status vtag))
        (server_check u from_uploader week_ok semver_ok r iv))
 
 let handle kind c =
@@ -87,11 +93,34 @@ let handle kind c =
     let u = next_cfg c in
     let cfg = new_config u in
     let files = next_list c next_file in
+    last_uploader_report := None;
     (match next c with
      | "up" -> server_case c u cfg ~from_uploader:true ~what:"uploader"
      | _ -> ());
     let nv = next_int c in
     for _ = 1 to nv do server_case c u cfg ~from_uploader:false ~what:"variant" done;
+    (match next c with
+     | "again" ->
+       (match !last_uploader_report with
+        | Some r ->
+          let vtag = next c in
+          let status = next_int c in
+          let semver_ok = next_bool c in
+          let stored = next_bool c in
+          let mv = server_validate cfg semver_ok r in
+          if verdict_name mv <> vtag then diff "again-verdict" ~model:(verdict_name mv) ~impl:vtag;
+          let mstatus = int_of_n (server_status mv) in
+          if mstatus <> status then diff "again-status" ~model:(string_of_int mstatus) ~impl:(string_of_int status);
+          if stored <> (status = 200) then diff "again-stored" ~model:(string_of_bool (status = 200)) ~impl:(string_of_bool stored);
+          let week_ok = (match parse_date r.r_week with Some _ -> true | None -> false) in
+          let iv = if status = 200 then VOk else (match verdict_of_name vtag with Some VOk | None -> VUnknownBuild | Some v -> v) in
+          List.iter (fun cl ->
+              prop (aclass_name cl)
+                (Printf.sprintf "uploader report posted again after %d other reports: week=%s x=%s programs=%d: handler answers %d"
+                   nv (esc r.r_week) (tok_of_n r.r_x) (List.length r.r_programs) status))
+            (server_check u true week_ok semver_ok r iv)
+        | None -> diff "again" ~model:"an uploader report" ~impl:"none")
+     | _ -> ());
     (* the real uploader's report at X = 0 on the whole week *)
     let up0 = (match next c with
         | "some" -> let r = next_report c in Some r.r_programs
@@ -158,6 +187,43 @@ let handle kind c =
              List.iter (fun cl -> prop (aclass_name cl) (who ^ " summary=" ^ cls ^ " [" ^ show_names names ^ "]"))
                (List.sort_uniq Stdlib.compare (viewer_report_check u p s))))
         r.r_programs
+    done
+  | "pages" ->
+    (* one viewer Server, a sequence of index-page requests for different configuration versions *)
+    let files = next_list c next_file in
+    let nreq = next_int c in
+    for q = 1 to nreq do
+      let version = next_bytes c in
+      let up = next_bool c in
+      let u = next_cfg c in
+      let cfg = new_config u in
+      let status = next_int c in
+      let tag s = Printf.sprintf "page%d-%s" q s in
+      if status <> 200 then diff (tag "status") ~model:"200" ~impl:(string_of_int status);
+      List.iter (fun f ->
+          let cls = next c in
+          let names = List.sort Stdlib.compare (List.map string_of_bytes (next_strs c)) in
+          if status = 200 then begin
+            let ms = viewer_summary cfg f in
+            if summary_name ms <> cls then diff (tag "summary") ~model:(summary_name ms) ~impl:cls
+            else (match ms with
+                | SCounters l -> check_eq (tag "summary-names") show_names (sort_names l) names
+                | _ -> ());
+            let isummary = (match cls with
+                | "program" -> Some SProgram | "osarch" -> Some SOsArch | "goversion" -> Some SGoVersion
+                | "version" -> Some SVersion | "clean" -> Some SClean
+                | "counters" -> Some (SCounters (List.map bytes_of_string names))
+                | _ -> None) in
+            (match isummary with
+             | None -> diff (tag "summary-text") ~model:"one of the fixed phrases" ~impl:cls
+             | Some s ->
+               List.iter (fun cl ->
+                   prop (aclass_name cl)
+                     (Printf.sprintf "request %d of %d on one viewer server: /?config=%s (store %s): file<%s> summary=%s [%s]"
+                        q nreq (esc version) (if up then "reachable" else "unreachable") (esc f.f_ident.id_program) cls (show_names names)))
+                 (List.sort_uniq Stdlib.compare (viewer_summary_check u f s)))
+          end)
+        files
     done
   | k -> diff "unknown-case-kind" ~model:k ~impl:"-"
 
